@@ -370,11 +370,23 @@ func TypeNamespaceIdentifierName(t dsl.TypeDefinition) string {
 
 func FieldIdentifierName(name string) string {
 	snakeCased := formatting.ToSnakeCase(name)
-	if _, reserved := reservedNames[snakeCased]; !reserved {
+	if !needsFieldSuffix(snakeCased) {
 		return snakeCased
 	}
 
 	return fmt.Sprintf("%s_field", snakeCased)
+}
+
+// A reserved name gets the suffix "_field", and so does a name that already looks like
+// a suffixed one ("class_field", from the field classField), so that it stays distinct
+// from the suffixed reserved name ("class_field", from the field class).
+func needsFieldSuffix(snakeCased string) bool {
+	if _, reserved := reservedNames[snakeCased]; reserved {
+		return true
+	}
+
+	stem, suffixed := strings.CutSuffix(snakeCased, "_field")
+	return suffixed && needsFieldSuffix(stem)
 }
 
 func EnumValueIdentifierName(name string) string {
